@@ -99,7 +99,8 @@ type Sched struct {
 	SpinFails int // failed TryLocks
 	// ReaderBlockedByWriter counts read-lock attempts refused because a writer was pending
 	ReaderBlockedByWriter int
-	pendW                 map[any]int // pending writers per mutex
+	pendW                 []pendEntry // pending writers per mutex (no map: the runtime's map functions
+	// carry their own race instrumentation, which //go:norace does not switch off)
 	SchedHash uint64
 
 	Aborted  bool
@@ -494,16 +495,39 @@ func Lock(key any, lock func(), try func() bool, site string) {
 		return
 	}
 	s.yield(site, false)
-	if s.pendW == nil {
-		s.pendW = map[any]int{}
-	}
-	s.pendW[key]++
+	s.addPend(key, 1)
 	for !try() {
 		s.yield(site, true) // on abort the goroutine exits here; pendW is irrelevant then
 	}
-	s.pendW[key]--
+	s.addPend(key, -1)
 	s.cur.Spinning = false
 	s.cur.Held++
+}
+
+type pendEntry struct {
+	key any
+	n   int
+}
+
+//go:norace
+func (s *Sched) pending(key any) int {
+	for i := range s.pendW {
+		if s.pendW[i].key == key {
+			return s.pendW[i].n
+		}
+	}
+	return 0
+}
+
+//go:norace
+func (s *Sched) addPend(key any, d int) {
+	for i := range s.pendW {
+		if s.pendW[i].key == key {
+			s.pendW[i].n += d
+			return
+		}
+	}
+	s.pendW = append(s.pendW, pendEntry{key, d})
 }
 
 // RLock replaces x.RLock(). Writer preference as in sync.RWMutex: while a writer
@@ -532,8 +556,8 @@ func RLock(key any, rlock func(), try func() bool, site string) {
 		return
 	}
 	s.yield(site, false)
-	for s.pendW[key] > 0 || !try() {
-		if s.pendW[key] > 0 {
+	for s.pending(key) > 0 || !try() {
+		if s.pending(key) > 0 {
 			s.ReaderBlockedByWriter++
 		}
 		s.yield(site, true)
